@@ -34,7 +34,8 @@ def gen_cases(rng, tier, count=None):
             out.append(TS.wrapper_case(rng, tier))
         elif k < 16:
             a = SIMPLE[i % len(SIMPLE)]
-            out.append(gen.add_midqueries(rng, gen.algo_case(rng, a, tier, fams=TS.FAMS, early_stop=False)))
+            out.append(gen.add_midqueries(rng, gen.add_queries(rng, gen.algo_case(rng, a, tier, fams=TS.FAMS,
+                                                                                  early_stop=False), 0.4)))
         elif k < 18:
             c = gen.algo_case(rng, "Zooming", tier, fams=TS.FAMS, early_stop=False,
                               n_choices=[100, 200, 300] if tier == "quick" else [200, 500, 1000])
